@@ -129,6 +129,9 @@ def _observe(case, G=None, extra_kw=None):
         obs["model"] = m
         obs["phase"] = "solve"
         r = m.solve()
+        if case.get("solve_twice"):
+            # history: the same object is solved again before anything is read (HiGHS may return another optimum)
+            r = m.solve()
         obs["solve_ret"] = r
         obs["solved"] = bool(m.is_solved())
         if obs["solved"]:
